@@ -976,6 +976,10 @@ class _MissingImportFinder:
 
         def visit_MatchAs(self, node:MatchAs):
             logger.debug("visit_MatchAs(%r)", node)
+            # ``case Pattern() as x``: the sub-pattern is matched (and its
+            # names are read) before ``x`` is bound.
+            if node.pattern is not None:
+                self.visit(node.pattern)
             if node.name is None:
                 return
             isinstance(node.name, str), node.name
